@@ -90,6 +90,10 @@ def run_case(case):
             C.suppress(category=cat)
         for lab in ('alpha', 'beta', 'Gamma', 'delta', 'gamma'):
             C.suppress(label=lab)
+    if case.get('pool'):
+        # one pool chosen for this learner; per-pool overrides of category / priority apply to the feedback before it is ranked
+        R.set_pools([case['pool']['name']])
+        Feedback.override_for_pool(case['pool']['name'], **case['pool']['fields'])
     objs = []
     ctor_errors = []
     spec_index = {}
@@ -111,6 +115,7 @@ def run_case(case):
             kw['report'] = rep
         C.suppress(**kw)
     ids = {id(o): i for i, o in enumerate(objs)}
+    out_pool = None
     snaps_active = [dict(snap(o, ids[id(o)], True), spec=spec_index[id(o)]) for o in R.feedback if id(o) in ids]
     snaps_ignored = [dict(snap(o, ids[id(o)], False), spec=spec_index[id(o)]) for o in R.ignored_feedback if id(o) in ids]
     out = {'active': snaps_active, 'ignored': snaps_ignored, 'ctor_errors': ctor_errors,
@@ -155,6 +160,18 @@ def run_case(case):
         out['n_feedback_after'] = [len(R.feedback), len(R.ignored_feedback)]
     except Exception as e:
         out['simple_again'] = {'raise': type(e).__name__, 'msg': str(e)[:200]}
+    # a suppression added after the report was resolved, then one more resolve
+    if case.get('late_suppress') is not None:
+        s = case['late_suppress']
+        kw = {k: s[k] for k in ('category', 'label', 'fields') if s.get(k) is not None}
+        if rep is not None:
+            kw['report'] = rep
+        try:
+            C.suppress(**kw)
+            final4 = simple.resolve(R) if rep is not None else simple.resolve()
+            out['simple_late'] = describe(final4)
+        except Exception as e:
+            out['simple_late'] = {'raise': type(e).__name__, 'msg': str(e)[:200]}
     return out
 
 
